@@ -135,6 +135,9 @@ def store_subscript(eng, st, cont, key, v, node):
             s1 = st.clone()
             packed = eng.pack_val(s1, o.vsort, v)
             s1.put(cont, o.with_(z3.Store(o.m, key.t, packed), z3.Store(o.d, key.t, z3.BoolVal(True))))
+            hook = eng.method_models.get("__on_dict_store__")
+            if hook:
+                hook(eng, s1, cont, key, v)
             return [(s1, NORMAL)]
         if isinstance(o, ListObj):
             if isinstance(key, Z) and key.kind == "int" and z3.is_int_value(z3.simplify(key.t)):
@@ -456,11 +459,35 @@ def st_FunctionDef(eng, s, st):
         r = m(eng, s1, s, fn)
         if r is not None:
             return r
-    if s.decorator_list:
-        raise Unsupported(f"decorated nested def {s.name}")
     fn.closure = s1.env  # late-binding closure over the defining environment (shared dict snapshot)
-    s1.env[s.name] = fn
-    return [(s1, NORMAL)]
+    if not s.decorator_list:
+        s1.env[s.name] = fn
+        return [(s1, NORMAL)]
+    # decorators: evaluated top to bottom, applied bottom to top
+    from .calls import call_value
+
+    outs = []
+    for s2, decs in eng.ev_all(list(s.decorator_list), s1):
+        if is_raised(decs):
+            outs.append((s2, _raise(decs)))
+            continue
+        cur = [(s2, fn)]
+        for d in reversed(decs):
+            nxt = []
+            for s3, v in cur:
+                if is_raised(v):
+                    nxt.append((s3, v))
+                else:
+                    nxt.extend(call_value(eng, s3, d, [v], {}, s))
+            cur = nxt
+        for s3, v in cur:
+            if is_raised(v):
+                outs.append((s3, _raise(v)))
+            else:
+                s4 = s3.clone()
+                s4.env[s.name] = v
+                outs.append((s4, NORMAL))
+    return outs
 
 
 def st_ClassDef(eng, s, st):
